@@ -53,7 +53,7 @@ def r1(run, ctx):
     regd = posix.split()
     sigs = cls.attr('SIGNALS')
     run.check('R1', sigs is not None and '_SIGNALS_NAMES.split()' in norm_text(sigs) and
-              "'SIG%s' % x" in norm_text(sigs), 'SIGNALS is built from every listed name', None,
+              astq.has_pattern(sigs, "getattr(signal, 'SIG%s' % $x) for $x in"), 'SIGNALS is built from every listed name', None,
               'SysHandler.SIGNALS')
     reg = ctx.fn(H + '_register')
     cfg = ctx.cfg(reg)
@@ -72,10 +72,10 @@ def r1(run, ctx):
     run.check('R1', bool(ctx.nodes_calling(init, [H + '_register'])), 'handlers are installed '
               'at construction', init, init.node)
     sn = cls.attr('SIG_NAMES')
-    run.check('R1', sn is not None and 'name[3:].lower()' in norm_text(sn),
+    run.check('R1', sn is not None and astq.has_pattern(sn, '$n[3:].lower()'),
               'SIG_NAMES maps SIGX to x', None, 'SysHandler.SIG_NAMES')
     sig = ctx.fn(H + 'signal')
-    run.check('R1', "getattr(self, 'handle_%s' % signame)" in norm_text(sig.node),
+    run.check('R1', astq.has_pattern(sig.node, "getattr(self, 'handle_%s' % $s)"),
               'the handler dispatches to handle_<name>', sig, sig.node)
     quit_ = ctx.fn(H + 'quit')
     for s in ('INT', 'TERM', 'QUIT'):
